@@ -217,6 +217,80 @@ example : NoReserved (Spec.kwargs (V := Nat)
     { cls := "E", appError := none, args := some [1, 2], kwargs := some [("code", 5), ("traceback", 0)] } (some 9)) := by
   decide
 
+/-! ### the invocation error path (`str(exc)` runs before the message is built) -/
+
+theorem del_del {K : Type} [DecidableEq K] {A : Type} (k : K) (l : List (K × A)) : del k (del k l) = del k l :=
+  del_of_find_none (find_del_self k l)
+
+/-- `ApplicationError.__unicode__` is harmless unless an application error carries a USER keyword argument named
+"traceback" -/
+theorem invocation_path_eq_of_no_traceback {V} (isStr : V → Bool) (dots : V) (reg : Registry) (e : Exc V) (tb : Option V)
+    (h : e.appError = none ∨ ∀ kw, e.kwargs = some kw → find TRACEBACK kw = none) :
+    invocationError isStr dots reg e tb = toError reg e tb := by
+  obtain ⟨c, ap, a, k⟩ := e
+  unfold invocationError strEffect
+  cases ap with
+  | none => rfl
+  | some u =>
+    cases k with
+    | none => rfl
+    | some kw =>
+      rcases h with h | h
+      · cases h
+      · simp [h kw rfl]
+
+/-- … and when traceback forwarding is on, the forwarded traceback overwrites the key anyway -/
+theorem invocation_path_eq_of_forwarding {V} (isStr : V → Bool) (dots : V) (reg : Registry) (e : Exc V) (t : V) :
+    invocationError isStr dots reg e (some t) = toError reg e (some t) := by
+  obtain ⟨c, ap, a, k⟩ := e
+  unfold invocationError strEffect
+  cases ap with
+  | none => rfl
+  | some u =>
+    cases k with
+    | none => rfl
+    | some kw =>
+      simp only
+      cases hf : find TRACEBACK kw with
+      | none => rfl
+      | some x =>
+        have hne : kw ≠ [] := by intro h; subst h; simp [find] at hf
+        have htr : truthy (some kw) = true := by cases kw with
+          | nil => exact absurd rfl hne
+          | cons _ _ => rfl
+        simp only
+        by_cases hs : isStr x = true
+        · simp only [hs, if_true, toError, errorUri, htr]
+          simp [truthy, put, del, del_del]
+        · simp only [hs]
+          simp only [toError, errorUri, htr, Bool.false_eq_true, if_false, if_true, Option.getD_some]
+          cases hd : del TRACEBACK kw with
+          | nil => simp [truthy, put, hd]
+          | cons y ys => simp [truthy, put, ← hd, del_del]
+
+/-- the invocation path end to end, under the two exclusions (reserved names; a user "traceback" on an application
+error while forwarding is off) -/
+theorem uri_args_kwargs_preserved_invocation_partial {V} (isStr : V → Bool) (dots : V) (regCallee regCaller : Registry)
+    (ctor : Cls → List V → Kwargs V → Ctor) (e : Exc V) (tb : Option V)
+    (h : NoReserved (Spec.kwargs e tb))
+    (ht : tb ≠ none ∨ e.appError = none ∨ ∀ kw, e.kwargs = some kw → find TRACEBACK kw = none) :
+    roundtripInv isStr dots regCallee regCaller ctor e tb = Spec.caller regCallee regCaller ctor e tb := by
+  have : invocationError isStr dots regCallee e tb = toError regCallee e tb := by
+    rcases ht with ht | ht
+    · cases tb with
+      | none => exact absurd rfl ht
+      | some t => exact invocation_path_eq_of_forwarding isStr dots regCallee e t
+    · exact invocation_path_eq_of_no_traceback isStr dots regCallee e tb ht
+  unfold roundtripInv
+  rw [this]
+  exact uri_args_kwargs_preserved_partial regCallee regCaller ctor e tb h
+
+/-- Negation witness (replayed by the harness, known finding): `ApplicationError("com.x", traceback=7)` with 7 standing
+for the text "user-tb" leaves as `traceback = "..."` (0 stands for "...") -/
+example : (invocationError (V := Nat) (fun _ => true) 0 Registry.init
+    { cls := "ApplicationError", appError := some "com.x", args := some [], kwargs := some [("traceback", 7)] } none).kwargs
+    = some [("traceback", 0)] := by decide
+
 /-! ### class_is_registered_or_generic -/
 
 /-- The caller sees either the class registered (at the caller) for the error URI — and then the constructor
@@ -427,6 +501,38 @@ theorem define_preserves_other (patOk : Uri → Bool) (reg reg' : Registry) (c c
         · cases hd
         · cases hd
           exact ⟨find_put_other hc _ _, find_put_other (hu e (Or.inl rfl)) _ _⟩
+
+theorem init_wf : Registry.init.WF := by
+  intro c h; simp [Registry.init, find] at h
+
+/-- successful definitions never register an empty pattern list, so the `IndexError` branch of
+`_message_from_exception` (totalised in the model) is unreachable from `Registry.init` through successful `define`s -/
+theorem define_preserves_wf (patOk : Uri → Bool) (reg reg' : Registry) (c : Cls) (w : Option (List Uri))
+    (err : Option Uri) (hwf : reg.WF) (hd : define patOk reg c w err = .ok reg') : reg'.WF := by
+  have key : ∀ (pats : List Uri), pats ≠ [] → ∀ c', find c' (put c pats reg.clsToPats) ≠ some [] := by
+    intro pats hp c'
+    by_cases hc : c = c'
+    · subst hc; rw [find_put_self]; intro h; exact hp (Option.some.inj h)
+    · rw [find_put_other hc]; exact hwf c'
+  unfold define at hd
+  cases err with
+  | none =>
+    cases w with
+    | none => cases hd
+    | some pats =>
+      cases pats with
+      | nil => cases hd
+      | cons x rest => simp only at hd; cases hd; exact key _ (by simp)
+  | some e =>
+    cases w with
+    | some _ => cases hd
+    | none =>
+      simp only at hd
+      split at hd
+      · cases hd
+      · split at hd
+        · cases hd
+        · cases hd; exact key _ (by simp)
 
 /-- non-vacuity of `define_roundtrip_explicit` / `_decorated` -/
 example : define (fun _ => true) Registry.init "MyErr" none (some "com.myapp.err") =
